@@ -14,28 +14,41 @@ ENGINE = "vtime-memstream"
 TECHNIQUE = (
     "fault-script enumeration under a virtual-time event loop: the real UDSClient.request() runs on a scripted transport that "
     "logs every write/read/reconnect; an offline checker compares each recorded trace with an executable reference machine "
-    "(transmission count, identical retransmissions, returned reply identity, exception class and cause, reconnects, time bound)"
+    "(transmission count, identical retransmissions, returned reply identity, exception class and cause, reconnects, time bound). "
+    "Besides single requests on a fresh client, sequences of two or three exchanges use ONE config object, ONE request object "
+    "(identifier re-assigned in between) and one client whose defaults are re-assigned (or a second live client with other "
+    "defaults); every exchange of a sequence is judged on its own with the values in force for that request"
 )
 LEVEL_TEXT = (
     "Fault enumeration: every event script up to length 4 (quick) / 5 (thorough) over the 11-letter alphabet {timeout, silence, "
     "connection error on read, on write, empty read, busy, pending, mismatch, malformed, negative final, positive final} x "
     "max_retry 0..3 x {client defaults, per-request overrides}, seeded random scripts up to length 12, and long runs crossing the "
-    "pending limit (119/120/121 replies) and the silence limit, all in virtual time. Held = every recorded trace is one the "
-    "reference machine allows."
+    "pending limit (119/120/121 replies) and the silence limit, all in virtual time; plus usage sequences: every script up to "
+    "length 3 (quick) / 4 (thorough) as the second exchange of a sequence x {shared config object sets nothing, max_retry, timeout, "
+    "both} with drawn first/third exchanges, client defaults (re-assigned on one client or held by a second live client), request "
+    "object reuse (identifier re-assigned / unchanged / fresh, typed and raw), slow-but-in-time first replies, and silence-limit "
+    "sequences. Held = every recorded trace is one the reference machine allows for the values in force for that request."
 )
 LEVEL_NOTE = "Trusted: reference machine vf/models/client.py (appendix B), scripted transport vf/scripted_transport.py, virtual clock vf/vtime.py."
 RULE = (
-    "cases = (script, max_retry, timeout source, timeout value); scripts enumerated exhaustively to the length bound plus seeded "
-    "random and long-run scripts; non-trivial = script contains at least one fault/pending/busy letter; distinct = distinct case tuples; "
+    "cases = (script, max_retry, timeout source, timeout value), and for sequences (sequence description, index of the exchange); "
+    "scripts enumerated exhaustively to the length bound plus seeded random and long-run scripts; non-trivial = script contains at "
+    "least one fault/pending/busy letter, or the exchange is a later exchange of a sequence; distinct = distinct case tuples; "
     "distinct_traces = distinct recorded (write/read/reconnect, outcome) sequences"
 )
 ASSUMPTIONS = [
     "client timeout > 0 (a client without timeout cannot observe timeouts)",
     "after pending-then-silence with attempts left both retransmission and raising missing-response are accepted; after a pending chain a busy reply may be returned or retried",
     "pending overflow may end with any exception type, at 120 or 121 pending replies",
+    "a per-request config field that is unset takes the default of the client the request is sent on, at the time of that request; "
+    "a reply is matched against the PDU the request object has when request() is called",
+    "line-based transports (LinesTransportMixin) are not driven here: an end of stream is the scripted 'empty read' event (C08/C19 drive the real line transports)",
 ]
 EXHAUSTIVE = {"quick": True, "thorough": True}
-EXHAUSTIVE_NOTE = "all scripts of length <=4 (quick) / <=5 (thorough) over 11 letters x max_retry {0,1,2,3} x {default, override} timeout source"
+EXHAUSTIVE_NOTE = (
+    "all scripts of length <=4 (quick) / <=5 (thorough) over 11 letters x max_retry {0,1,2,3} x {default, override} timeout source; "
+    "all scripts of length <=3 / <=4 as second exchange of a usage sequence x 4 shapes of the shared config object (other sequence dimensions drawn)"
+)
 
 LETTERS = "TZCEWBPMXNF"
 FINAL_CODES = [0x10, 0x11, 0x12, 0x13, 0x22, 0x24, 0x31, 0x33, 0x35, 0x36, 0x37, 0x70, 0x72, 0x7E, 0x7F]
@@ -44,8 +57,10 @@ REQ = bytes([0x22, 0x12, 0x34])
 
 def shards(tier: str, seed: int) -> list[dict[str, Any]]:
     if tier == "quick":
-        return [{"mode": "exh", "maxlen": 4, "part": i, "parts": 16} for i in range(16)] + [{"mode": "rand", "n": 1500, "part": i} for i in range(4)] + [{"mode": "long"}]
-    return [{"mode": "exh", "maxlen": 5, "part": i, "parts": 32} for i in range(32)] + [{"mode": "rand", "n": 30000, "part": i} for i in range(8)] + [{"mode": "long"}]
+        return ([{"mode": "exh", "maxlen": 4, "part": i, "parts": 16} for i in range(16)] + [{"mode": "rand", "n": 1500, "part": i} for i in range(4)] + [{"mode": "long"}]
+                + [{"mode": "seq", "maxlen": 3, "draws": 3, "n": 400, "part": i, "parts": 4} for i in range(4)])
+    return ([{"mode": "exh", "maxlen": 5, "part": i, "parts": 32} for i in range(32)] + [{"mode": "rand", "n": 30000, "part": i} for i in range(8)] + [{"mode": "long"}]
+            + [{"mode": "seq", "maxlen": 4, "draws": 3, "n": 5000, "part": i, "parts": 8} for i in range(8)])
 
 
 def required_reach(tier: str) -> dict[str, int]:
@@ -55,25 +70,38 @@ def required_reach(tier: str) -> dict[str, int]:
     r.update({"outcome.return": 100, "outcome.missing": 100, "outcome.mismatch": 10, "outcome.malformed": 10, "outcome.error": 1,
               "reconnects": 50, "form.raw": 100, "form.typed": 100, "long.pending-limit-crossed": 1, "long.pending-below-limit": 1, "long.silence-limit-crossed": 1,
               "long.silence-below-limit": 1, "override.timeout": 100, "override.max_retry": 100})
+    # sequences: later uses of one config object / one request object / one client
+    r.update({"seq.exchanges": 5000, "seq.later-use": 2500, "seq.third-use": 300, "seq.form.raw": 1000, "seq.form.typed": 1000,
+              "seq.clients:second-live-client": 500, "seq.clients:one-client-defaults-reassigned": 500,
+              "seq.later-use.after:return": 200, "seq.later-use.after:missing": 200, "seq.later-use.after:illegal-or-error": 200,
+              "seq.later-use.config:unset-max_retry+client-default-differs": 500, "seq.later-use.config:unset-timeout+client-default-differs": 500,
+              "seq.later-use.config:set-max_retry": 500, "seq.later-use.config:set-timeout": 500,
+              "seq.later-use.discriminates:max_retry": 500, "seq.later-use.discriminates:timeout": 100,
+              "seq.later-use.request:identifier-reassigned": 500, "seq.later-use.request:identifier-reassigned+final-reply-scripted": 200,
+              "seq.later-use.request:identifier-reassigned+reply-for-old-identifier-scripted": 20,
+              "seq.later-use.request:same-object-unchanged": 200, "seq.later-use.request:fresh-object": 200,
+              "seq.silence-limit-follows-the-request": 16})
     return r
 
 
-def event_bytes(letter: str, idx: int) -> tuple[Any, ...]:
+def event_bytes(letter: str, idx: int, req: bytes = REQ, other: int = 0x4321) -> tuple[Any, ...]:
+    """the bytes of one scripted event for the request PDU `req` (a ReadDataByIdentifier request for one identifier); `other` is
+    the identifier a same-service stale reply carries"""
     if letter in "TZCEW":
         return (letter,)
     if letter == "B":
-        return ("reply", bytes([0x7F, REQ[0], 0x21]))
+        return ("reply", bytes([0x7F, req[0], 0x21]))
     if letter == "P":
-        return ("reply", bytes([0x7F, REQ[0], 0x78]))
+        return ("reply", bytes([0x7F, req[0], 0x78]))
     if letter == "M":
         # reply of another service / negative reply naming another service / same service but another data identifier (a stale reply)
-        return ("reply", [bytes([0x50, 0x01]), bytes([0x7F, 0x10, 0x31]), bytes([0x62, 0x43, 0x21, idx & 0xFF])][idx % 3])
+        return ("reply", [bytes([0x50, 0x01]), bytes([0x7F, 0x10, 0x31]), bytes([0x62, other >> 8, other & 0xFF, idx & 0xFF])][idx % 3])
     if letter == "X":
-        return ("reply", bytes([0x62, 0x12]) if idx % 2 == 0 else bytes([0x7F, REQ[0], 0x01]))
+        return ("reply", bytes([0x62, req[1]]) if idx % 2 == 0 else bytes([0x7F, req[0], 0x01]))
     if letter == "N":
-        return ("reply", bytes([0x7F, REQ[0], FINAL_CODES[idx % len(FINAL_CODES)]]))
+        return ("reply", bytes([0x7F, req[0], FINAL_CODES[idx % len(FINAL_CODES)]]))
     if letter == "F":
-        return ("reply", bytes([0x62, 0x12, 0x34, idx & 0xFF, (idx >> 8) & 0xFF]))
+        return ("reply", bytes([0x62, req[1], req[2], idx & 0xFF, (idx >> 8) & 0xFF]))
     raise AssertionError(letter)
 
 
@@ -143,6 +171,17 @@ def check_case(ctx: Any, script: list[str], max_retry: int, timeout: float, over
     except vtime.Deadlock:
         ctx.violation("client/blocks-forever", "request() can never complete (nothing scheduled, nothing readable)", case)
         return
+    judge(ctx, case, script, [event_bytes(c, i) for i, c in enumerate(script)], max_retry, timeout, out, REQ)
+
+
+def judge(ctx: Any, case: dict[str, Any], script: list[str], events: list[tuple[Any, ...]], max_retry: int, timeout: float,
+          out: dict[str, Any], req_pdu: bytes, tag: str = "") -> None:
+    """One recorded exchange (wire log + outcome of request()) against the reference machine for (script, max_retry, timeout):
+    the effective values of THIS request.  `tag` is appended to every mechanism key (later exchanges of a sequence)."""
+
+    def violation(key: str, what: str, witness: Any) -> None:
+        ctx.violation(key + tag, what, witness)
+
     allowed = cm.outcomes(script, max_retry, timeout)
     log = out["log"]
     writes = [l for l in log if l[0] == "write"]
@@ -160,13 +199,13 @@ def check_case(ctx: Any, script: list[str], max_retry: int, timeout: float, over
     if reconnects:
         ctx.reach("reconnect.returned-new-object", len(reconnects))
     if stale:
-        ctx.violation(f"client/uses-transport-replaced-by-reconnect/{stale[0][3]}", "after reconnect() returned the new transport the client still used the old (closed) object", w)
+        violation(f"client/uses-transport-replaced-by-reconnect/{stale[0][3]}", "after reconnect() returned the new transport the client still used the old (closed) object", w)
         return
     # (a) identical (re)transmissions
-    if any(l[3] != REQ for l in writes):
-        ctx.violation("client/retransmission-differs", "a (re)transmission is not byte-identical to request.pdu", w)
+    if any(l[3] != req_pdu for l in writes):
+        violation("client/retransmission-differs", "a (re)transmission is not byte-identical to request.pdu", w)
     if tx > max_retry + 1:
-        ctx.violation("client/too-many-transmissions", "the request was put on the wire more than max_retry+1 times", w)
+        violation("client/too-many-transmissions", "the request was put on the wire more than max_retry+1 times", w)
     # (b,c) transmission count and outcome
     cand = [a for a in allowed if a[0] == tx]
     okinds = {a[1] for a in cand}
@@ -175,29 +214,29 @@ def check_case(ctx: Any, script: list[str], max_retry: int, timeout: float, over
         if "error" in okinds:
             pass  # pending overflow may end with any exception
         else:
-            ctx.violation(f"client/unexpected-exception/{kind[7:]}/after-{pos_in_script}", f"request() ends with {kind[7:]}, which the event sequence does not imply", w)
+            violation(f"client/unexpected-exception/{kind[7:]}/after-{pos_in_script}", f"request() ends with {kind[7:]}, which the event sequence does not imply", w)
         return
     if not cand:
         want_tx = sorted({a[0] for a in allowed})
-        ctx.violation(f"client/transmission-count/{'more' if tx > max(want_tx) else 'fewer' if tx < min(want_tx) else 'other'}-than-implied/after-{pos_in_script}",
-                      f"{tx} transmission(s), the event sequence implies {want_tx}", w)
+        violation(f"client/transmission-count/{'more' if tx > max(want_tx) else 'fewer' if tx < min(want_tx) else 'other'}-than-implied/after-{pos_in_script}",
+                  f"{tx} transmission(s), the event sequence implies {want_tx}", w)
         return
     if kind not in okinds:
-        ctx.violation(f"client/outcome/{kind}-instead-of-{'|'.join(sorted(okinds))}/after-{pos_in_script}", "outcome differs from what the event sequence implies", w)
+        violation(f"client/outcome/{kind}-instead-of-{'|'.join(sorted(okinds))}/after-{pos_in_script}", "outcome differs from what the event sequence implies", w)
         return
     match = [a for a in cand if a[1] == kind]
     if kind == "return":
         idxs = {a[2] for a in match}
         last_read = [l for l in log if l[0] == "read"][-1]
-        if last_read[5] not in idxs or out["pdu"] != event_bytes(script[last_read[5]], last_read[5])[1]:
-            ctx.violation("client/returned-other-reply", "the returned reply is not the first final reply delivered (a reply was dropped or fabricated)", {**w, "returned": out["pdu"], "expected_event_index": sorted(idxs)})
+        if last_read[5] not in idxs or out["pdu"] != events[last_read[5]][1]:
+            violation("client/returned-other-reply", "the returned reply is not the first final reply delivered (a reply was dropped or fabricated)", {**w, "returned": out["pdu"], "expected_event_index": sorted(idxs)})
             return
     if kind == "missing":
         if detail not in {a[2] for a in match}:
-            ctx.violation(f"client/missing-response-cause/{detail}", "MissingResponse.__cause__ does not reflect whether the last retry-worthy event was a connection error", w)
+            violation(f"client/missing-response-cause/{detail}", "MissingResponse.__cause__ does not reflect whether the last retry-worthy event was a connection error", w)
     recs = {a[3] for a in match}
     if len(reconnects) not in recs:
-        ctx.violation("client/reconnect-count", f"{len(reconnects)} reconnect(s), implied {sorted(recs)}", w)
+        violation("client/reconnect-count", f"{len(reconnects)} reconnect(s), implied {sorted(recs)}", w)
     # every reconnect lies between a connection error and the following transmission
     for i, l in enumerate(log):
         if l[0] == "reconnect":
@@ -206,10 +245,205 @@ def check_case(ctx: Any, script: list[str], max_retry: int, timeout: float, over
             ok_prev = bool(prev) and (prev[-1][4] in ("ConnectionResetError", "BrokenPipeError", b""))
             ok_next = bool(nxt) and nxt[0][0] == "write"
             if not (ok_prev and ok_next):
-                ctx.violation("client/reconnect-misplaced", "reconnect not placed between a connection error and the retransmission", w)
+                violation("client/reconnect-misplaced", "reconnect not placed between a connection error and the retransmission", w)
                 break
     if out["vt"] > cm.time_bound(max_retry, timeout) * 25:
-        ctx.violation("client/time-bound", "request took longer (virtual time) than the bound implied by max_retry/timeout", w)
+        violation("client/time-bound", "request took longer (virtual time) than the bound implied by max_retry/timeout", w)
+
+
+# ---- sequences: one client, one config object and one request object used for two or three exchanges ---------------------------
+#
+# spec = {"cfg": {"max_retry": int|None, "timeout": float|None},      fields the ONE shared config object sets (tags are always set)
+#         "clients": "same" | "other",                                one client whose public defaults are re-assigned between the
+#                                                                     exchanges | a second live client (own transport, own defaults),
+#                                                                     exchanges alternate A, B, A
+#         "request": "same-reassigned" | "same-unchanged" | "fresh",  one request object whose identifier is re-assigned between the
+#                                                                     exchanges | the same object sent again | a new object each time
+#         "raw": bool,                                                RawRequest (pdu setter) or ReadDataByIdentifierRequest (data_identifier setter)
+#         "exchanges": [{"script": str, "client_max_retry": int, "client_timeout": float, "did": int, "slow": bool}, ...]}
+#
+# Every exchange is judged on its own against the reference machine with the values in force for THAT request: a field the config
+# object sets, else the default of the client the request is sent on at that moment (an unset field of the config stays unset).
+
+SEQ_TIMEOUTS = [0.1, 0.3, 2.0, 30.0]
+SLOW_FRACTION = 0.6  # a "slow" first reply arrives after this fraction of the effective timeout: in time
+
+
+def effective(spec: dict[str, Any], k: int) -> tuple[int, float]:
+    x = spec["exchanges"][k]
+    mr = spec["cfg"]["max_retry"] if spec["cfg"]["max_retry"] is not None else x["client_max_retry"]
+    to = spec["cfg"]["timeout"] if spec["cfg"]["timeout"] is not None else x["client_timeout"]
+    return mr, to
+
+
+def seq_request_pdu(x: dict[str, Any]) -> bytes:
+    return bytes([0x22, x["did"] >> 8, x["did"] & 0xFF])
+
+
+def seq_events(spec: dict[str, Any], k: int) -> list[tuple[Any, ...]]:
+    x = spec["exchanges"][k]
+    # a same-service stale reply names the identifier this request object carried in the previous exchange (if it differs)
+    other = spec["exchanges"][k - 1]["did"] if k > 0 and spec["exchanges"][k - 1]["did"] != x["did"] else (0x4321 if x["did"] != 0x4321 else 0x4322)
+    events = [event_bytes(c, i, seq_request_pdu(x), other) for i, c in enumerate(x["script"])]
+    if x.get("slow") and events and events[0][0] == "reply":
+        events[0] = ("reply", events[0][1], SLOW_FRACTION * effective(spec, k)[1])
+    return events
+
+
+def load_script(tr: Any, events: list[tuple[Any, ...]]) -> None:
+    """a new script and an empty log for the next exchange on this connection (all generations of a ScriptedTransport share `_st`)"""
+    tr._st["script"] = list(events)
+    tr._st["pos"] = 0
+    tr._st["log"] = []
+
+
+async def run_sequence(spec: dict[str, Any]) -> list[dict[str, Any]]:
+    import asyncio
+
+    from gallia.services.uds.core import service
+    from gallia.services.uds.core.client import UDSClient, UDSRequestConfig
+    from vf.scripted_transport import ScriptedTransport
+
+    xs = spec["exchanges"]
+    cfg = UDSRequestConfig(tags=["sequence"], **{f: v for f, v in spec["cfg"].items() if v is not None})
+    n_clients = 2 if spec["clients"] == "other" and len(xs) > 1 else 1
+    clients = [UDSClient(ScriptedTransport([]), timeout=xs[j]["client_timeout"], max_retry=xs[j]["client_max_retry"]) for j in range(n_clients)]
+
+    def make(did: int) -> Any:
+        return service.RawRequest(bytes([0x22, did >> 8, did & 0xFF])) if spec["raw"] else service.ReadDataByIdentifierRequest(did)
+
+    loop = asyncio.get_running_loop()
+    req = make(xs[0]["did"])
+    outs: list[dict[str, Any]] = []
+    for k, x in enumerate(xs):
+        cl = clients[k % n_clients]
+        # the public defaults of the client, (re-)assigned before this request
+        cl.max_retry = x["client_max_retry"]
+        cl.timeout = x["client_timeout"]
+        if k > 0:
+            if spec["request"] == "fresh":
+                req = make(x["did"])
+            elif spec["request"] == "same-reassigned":
+                if spec["raw"]:
+                    req.pdu = bytes([0x22, x["did"] >> 8, x["did"] & 0xFF])
+                else:
+                    req.data_identifier = x["did"]
+        load_script(cl.transport, seq_events(spec, k))
+        out: dict[str, Any] = {}
+        t0 = loop.time()
+        try:
+            resp = await cl.request(req, cfg)
+            out["kind"] = "return"
+            out["pdu"] = resp.pdu
+        except BaseException as e:  # classified by the judge
+            out["exc"] = e
+        out["vt"] = loop.time() - t0
+        out["log"] = cl.transport.log
+        out["cfg_after"] = {"max_retry": cfg.max_retry, "timeout": cfg.timeout}
+        outs.append(out)
+    return outs
+
+
+def check_sequence(ctx: Any, spec: dict[str, Any]) -> None:
+    xs = spec["exchanges"]
+    try:
+        outs = vtime.run(run_sequence(spec))
+    except vtime.Deadlock:
+        ctx.violation("client/blocks-forever/in-sequence", "a request() of the sequence can never complete (nothing scheduled, nothing readable)", {"seq": spec})
+        return
+    ctx.reach(f"seq.clients:{'second-live-client' if spec['clients'] == 'other' and len(xs) > 1 else 'one-client-defaults-reassigned'}")
+    prev_kind = None
+    for k, (x, out) in enumerate(zip(xs, outs)):
+        script = list(x["script"])
+        mr, to = effective(spec, k)
+        case = {"seq": spec, "exchange": k, "script": x["script"] if len(script) <= 40 else rle(script), "max_retry": mr, "timeout": to,
+                "override": spec["cfg"], "raw": spec["raw"], "config_object_after": out["cfg_after"]}
+        ctx.case(("seq", repr(spec), k), nontrivial=k > 0)
+        ctx.reach("seq.exchanges")
+        ctx.reach("seq.form.raw" if spec["raw"] else "seq.form.typed")
+        if k > 0:
+            pmr, pto = effective(spec, k - 1)
+            ctx.reach("seq.later-use")
+            if k > 1:
+                ctx.reach("seq.third-use")
+            ctx.reach(f"seq.later-use.after:{prev_kind}")
+            for field, own, prev, cl_own, cl_prev in (("max_retry", mr, pmr, x["client_max_retry"], xs[k - 1]["client_max_retry"]),
+                                                      ("timeout", to, pto, x["client_timeout"], xs[k - 1]["client_timeout"])):
+                if spec["cfg"][field] is None:
+                    ctx.reach(f"seq.later-use.config:unset-{field}")
+                    if cl_own != cl_prev:
+                        ctx.reach(f"seq.later-use.config:unset-{field}+client-default-differs")
+                else:
+                    ctx.reach(f"seq.later-use.config:set-{field}")
+            # would a value carried over from the previous exchange show?  (the reference machine allows other end states for it,
+            # or the slow first reply would be too late for it, or it would put the silence limit elsewhere)
+            if cm.outcomes(script, pmr, to) != cm.outcomes(script, mr, to):
+                ctx.reach("seq.later-use.discriminates:max_retry")
+            slow_reply = bool(x.get("slow")) and bool(script) and script[0] in "BPMXNF"
+            if (slow_reply and pto < SLOW_FRACTION * to) or cm.outcomes(script, mr, pto) != cm.outcomes(script, mr, to):
+                ctx.reach("seq.later-use.discriminates:timeout")
+            if spec["request"] == "same-reassigned" and x["did"] != xs[k - 1]["did"]:
+                ctx.reach("seq.later-use.request:identifier-reassigned")
+                if any(c in "FN" for c in script):
+                    ctx.reach("seq.later-use.request:identifier-reassigned+final-reply-scripted")
+                if any(c == "M" and i % 3 == 2 for i, c in enumerate(script)):
+                    ctx.reach("seq.later-use.request:identifier-reassigned+reply-for-old-identifier-scripted")
+            elif spec["request"] == "same-unchanged":
+                ctx.reach("seq.later-use.request:same-object-unchanged")
+            else:
+                ctx.reach("seq.later-use.request:fresh-object")
+        kind, _ = classify(out)
+        prev_kind = "return" if kind == "return" else "missing" if kind == "missing" else "illegal-or-error"
+        judge(ctx, case, script, seq_events(spec, k), mr, to, out, seq_request_pdu(x), tag="/later-exchange-of-a-sequence" if k > 0 else "")
+
+
+def short_scripts(maxlen: int) -> list[str]:
+    return ["".join(t) for ln in range(maxlen + 1) for t in itertools.product(LETTERS, repeat=ln)]
+
+
+def draw_sequence(rng: Any, cfg_pattern: int, later_script: str | None, randlen: tuple[int, int] | None = None) -> dict[str, Any]:
+    """cfg_pattern: bit 0 = the config object sets max_retry, bit 1 = it sets timeout.  `later_script` (if given) is the script of the
+    second exchange; everything else is drawn."""
+    weights = [3, 1, 2, 2, 1, 3, 5, 1, 1, 2, 2]
+
+    def script() -> str:
+        if randlen is not None:
+            return "".join(rng.choices(LETTERS, weights=weights, k=rng.randint(*randlen)))
+        return "".join(rng.choices(LETTERS, weights=weights, k=rng.randint(0, 3)))
+
+    n = 3 if rng.random() < 0.34 else 2
+    request = rng.choice(["same-reassigned", "same-reassigned", "same-unchanged", "fresh"])
+    dids = [rng.randrange(0x10000)]
+    for _ in range(n - 1):
+        dids.append(dids[-1] if request == "same-unchanged" else rng.choice([d for d in (rng.randrange(0x10000), dids[-1] ^ 1, dids[-1] ^ 0x100, dids[0]) if d != dids[-1]]))
+    mrs = [rng.randrange(4)]
+    tos = [rng.choice(SEQ_TIMEOUTS)]
+    for _ in range(n - 1):
+        # the default in force for the next request differs from the previous one most of the time
+        mrs.append(rng.choice([m for m in range(4) if m != mrs[-1]]) if rng.random() < 0.85 else mrs[-1])
+        tos.append(rng.choice([t for t in SEQ_TIMEOUTS if t != tos[-1]]) if rng.random() < 0.85 else tos[-1])
+    xs = [{"script": later_script if (k == 1 and later_script is not None) else script(), "client_max_retry": mrs[k], "client_timeout": tos[k],
+           "did": dids[k], "slow": rng.random() < 0.5} for k in range(n)]
+    return {"cfg": {"max_retry": rng.randrange(4) if cfg_pattern & 1 else None, "timeout": rng.choice(SEQ_TIMEOUTS) if cfg_pattern & 2 else None},
+            "clients": rng.choice(["same", "other"]), "request": request, "raw": rng.random() < 0.5, "exchanges": xs}
+
+
+def silence_limit_sequences() -> list[dict[str, Any]]:
+    """the silence limit after a pending reply (max(timeout, 20 s) of polls) follows the timeout in force for THAT request"""
+    res = []
+    lo2, hi2 = cm.silence_polls(2.0)
+    lo30, hi30 = cm.silence_polls(30.0)
+    k = (hi2 + lo30) // 2  # silent polls: beyond the limit for timeout 2, below it for timeout 30
+    for clients in ("same", "other"):
+        for request in ("same-reassigned", "same-unchanged"):
+            for raw in (False, True):
+                for t1, t2 in ((2.0, 30.0), (30.0, 2.0)):
+                    for mr in (0, 1):
+                        xs = [{"script": "P" + "T" * k + "F", "client_max_retry": mr, "client_timeout": t, "did": 0x2000 + i * (request == "same-reassigned"), "slow": False}
+                              for i, t in enumerate((t1, t2, t1))]
+                        res.append({"cfg": {"max_retry": None, "timeout": None}, "clients": clients, "request": request, "raw": raw, "exchanges": xs})
+                        res.append({"cfg": {"max_retry": mr, "timeout": None}, "clients": clients, "request": request, "raw": raw, "exchanges": xs[:2]})
+    return res
 
 
 def first_special(script: list[str]) -> str:
@@ -259,6 +493,29 @@ def run(ctx: Any, params: dict[str, Any]) -> None:
                 ctx.sample({"script": "".join(script), "max_retry": mr, "timeout": timeout, "override": override})
             if ctx.out_of_time():
                 break
+    elif mode == "seq":
+        # every script up to the length bound as the SECOND exchange x the four shapes of the shared config object
+        # (sets nothing / max_retry / timeout / both); the other dimensions are drawn
+        for k, later in enumerate(short_scripts(params["maxlen"])):
+            if k % params["parts"] != params["part"]:
+                continue
+            for pattern in range(4):
+                for _ in range(params.get("draws", 1)):
+                    spec = draw_sequence(rng, pattern, later)
+                    check_sequence(ctx, spec)
+            if k % 199 == 0:
+                ctx.sample({"sequence": spec})
+        for i in range(params["n"]):
+            spec = draw_sequence(rng, rng.randrange(4), None, randlen=(2, 8))
+            check_sequence(ctx, spec)
+            if i % 200 == 0:
+                ctx.sample({"sequence": spec})
+            if ctx.out_of_time():
+                break
+        for j, spec in enumerate(silence_limit_sequences()):
+            if j % params["parts"] == params["part"]:
+                check_sequence(ctx, spec)
+                ctx.reach("seq.silence-limit-follows-the-request")
     else:
         for timeout in (0.1, 2.0, 30.0):
             lo, hi = cm.silence_polls(timeout)
@@ -289,6 +546,9 @@ def replay(ctx: Any, witness: dict[str, Any]) -> None:
     import gallia.command  # noqa: F401
 
     vtime.quiet_logging()
+    if "seq" in witness:
+        check_sequence(ctx, witness["seq"])
+        return
     s = witness["script"]
     script: list[str] = []
     for m in re.finditer(r"([A-Z])(?:\*(\d+))?", s):
